@@ -381,6 +381,9 @@ class OracleMixin:
             if f.rex:
                 self.violate("C13.no_raise", f"flush(return_exceptions=True) raised {type(e).__name__}: {e}")
                 self.violate("C12.return_exceptions", f"flush(return_exceptions=True) raised {type(e).__name__}: {e}")
+            elif isinstance(e, CancelledError) and pr.cb_cancel_raised:
+                # a user callback let a CancelledError pass that reached it (abandoned flush): that is a callback that raised
+                self.sit["C12.flush_raised_callbacks_cancellederror"] += 1
             elif not self.is_injected(e):
                 kind = "CancelledError" if isinstance(e, CancelledError) else "other"
                 self.violate(f"C12.raised_identity.{kind}", f"flush() raised {type(e).__name__}: {e!r}, which no task or callback raised", pool=pr.idx)
@@ -411,6 +414,9 @@ class OracleMixin:
             return
         if rex:
             self.violate("C12.return_exceptions", f"gather_and_close(return_exceptions=True) raised {type(e).__name__}: {e!r}")
+        elif isinstance(e, CancelledError) and pr.cb_cancel_raised:
+            self.sit["C12.gac_raised_callbacks_cancellederror"] += 1
+            return
         kind = "CancelledError" if isinstance(e, CancelledError) else "other"
         if not self.excs:
             self.violate(f"C08.returns_normally.{kind}", f"gather_and_close raised {type(e).__name__}: {e!r} although no task or callback raised", pool=pr.idx)
